@@ -3,6 +3,7 @@ package rules
 import (
 	"fmt"
 	"go/token"
+	"go/types"
 
 	"golang.org/x/tools/go/ssa"
 
@@ -138,6 +139,9 @@ func (c *Ctx) checkContentUnaltered() {
 			}
 		}
 	})
+	if !whole {
+		whole = wholeStructCopy(cp, 0)
+	}
 	r.Check(whole, "C02.4b-copy-is-whole", "MsgServerData.copy copies the whole struct (*dst = *src)", c.P.Pos(cp.Pos()), "", "the per-recipient copy of {data} is built field by field: a field can be dropped")
 }
 
@@ -216,8 +220,11 @@ func (c *Ctx) checkPushAudience() {
 			continue
 		}
 		var sinks []ssa.Instruction
+		// the map of recipients: Receipt.To, or a map of that type filled by a phase of the function
+		// that builds the receipt (`To: t.dataPushRecipients(..)`)
+		toT := toF.Type()
 		core.AllInstrs(fn, func(in ssa.Instruction) {
-			if mu, ok := in.(*ssa.MapUpdate); ok && core.IsFieldLoad(toF)(mu.Map) {
+			if mu, ok := in.(*ssa.MapUpdate); ok && (core.IsFieldLoad(toF)(mu.Map) || types.Identical(mu.Map.Type(), toT)) {
 				sinks = append(sinks, in)
 			}
 		})
@@ -225,9 +232,14 @@ func (c *Ctx) checkPushAudience() {
 			continue
 		}
 		hasDataParam := false
-		for _, p := range fn.Params {
-			if isPtrToNamed(p.Type(), "MsgServerData") {
-				hasDataParam = true
+		for _, f2 := range []*ssa.Function{fn, c.soleCaller(fn)} {
+			if f2 == nil {
+				continue
+			}
+			for _, p := range f2.Params {
+				if isPtrToNamed(p.Type(), "MsgServerData") {
+					hasDataParam = true
+				}
 			}
 		}
 		if !hasDataParam {
@@ -258,4 +270,68 @@ func (c *Ctx) checkPushAudience() {
 			r.Check(ok && cnt[0] > 0, "C02.5-push-audience", fk(fn)+": receipt.Channel only for channel topics", c.pos(st), "", "the channel broadcast address is set for a topic that is not a channel")
 		}
 	}
+}
+
+// wholeStructCopy: fn returns a copy of the struct its first parameter points to that has every
+// field: `dst := *src` (possibly in a helper, a generic one included, that fn returns the result
+// of), or a literal that sets every field of the struct from the same field of the source.
+func wholeStructCopy(fn *ssa.Function, depth int) bool {
+	if fn == nil || len(fn.Blocks) == 0 || len(fn.Params) == 0 || depth > 2 {
+		return false
+	}
+	src := fn.Params[0]
+	ok := false
+	core.AllInstrs(fn, func(in ssa.Instruction) {
+		switch x := in.(type) {
+		case *ssa.Store:
+			if _, isAlloc := x.Addr.(*ssa.Alloc); isAlloc {
+				if u, isLoad := x.Val.(*ssa.UnOp); isLoad && u.X == ssa.Value(src) {
+					ok = true
+				}
+			}
+		case *ssa.Return:
+			if len(x.Results) == 1 {
+				if call, isCall := core.Strip(x.Results[0]).(*ssa.Call); isCall {
+					g := call.Call.StaticCallee()
+					inMod := g != nil && (core.InModule(g) || (g.Origin() != nil && core.InModule(g.Origin())))
+					if inMod && len(call.Call.Args) > 0 && core.Strip(call.Call.Args[0]) == ssa.Value(src) {
+						if wholeStructCopy(g, depth+1) {
+							ok = true
+						}
+					}
+				}
+			}
+		case *ssa.Alloc:
+			pt, isP := x.Type().(*types.Pointer)
+			if !isP {
+				return
+			}
+			st, isS := pt.Elem().Underlying().(*types.Struct)
+			if !isS || x.Referrers() == nil {
+				return
+			}
+			set := map[int]bool{}
+			for _, ref := range *x.Referrers() {
+				fa, isFA := ref.(*ssa.FieldAddr)
+				if !isFA || fa.Referrers() == nil {
+					continue
+				}
+				for _, r2 := range *fa.Referrers() {
+					s2, isSt := r2.(*ssa.Store)
+					if !isSt || s2.Addr != ssa.Value(fa) {
+						continue
+					}
+					if ld, isLd := s2.Val.(*ssa.UnOp); isLd {
+						if fa2, isFA2 := ld.X.(*ssa.FieldAddr); isFA2 && fa2.Field == fa.Field && fa2.X == ssa.Value(src) {
+							set[fa.Field] = true
+						}
+					}
+				}
+			}
+			if st.NumFields() > 0 && len(set) == st.NumFields() {
+				ok = true
+			}
+		}
+	})
+	return ok
 }
